@@ -6,6 +6,9 @@
    (rewards pool withdrawal) and of endOfBlock (expired / absent account resets,
    performPayout, recordProposal).
 
+   Transaction types: payment, key registration, asset config / transfer / freeze
+   (EvalApply.v); application calls, heartbeats and state proofs are excluded.
+
    Not modelled here (inputs or other properties): NextRewardsState (C25: the new rewards
    level is an input), validateForPayouts / proposerPayout (C24: proposer and payout are
    inputs), the justification of the expired / absent lists (C27: the lists are inputs),
